@@ -90,12 +90,7 @@ func toolSegments(c segCase, data []byte, t tools) string {
 		panic(err)
 	}
 	args := []string{"-d", strconv.Itoa(int(c.durMS))}
-	switch c.mode {
-	case "lazy":
-		args = append(args, "-lazy")
-	case "mux":
-		args = append(args, "-m")
-	}
+	args = append(args, toolModeArgs(c.mode)...)
 	args = append(args, "in.mp4", "o")
 	_, stderr, rc, timedOut := runTool(t.segmenter, args, dir, 20*time.Second)
 	if timedOut {
@@ -116,7 +111,7 @@ func toolSegments(c segCase, data []byte, t tools) string {
 	for ti, tr := range c.tracks {
 		var files []segf
 		for _, e := range ents {
-			if c.mode == "mux" {
+			if isMux(c.mode) {
 				if m := reMuxFile.FindStringSubmatch(e.Name()); m != nil {
 					k, _ := strconv.Atoi(m[1])
 					files = append(files, segf{k, filepath.Join(dir, e.Name())})
@@ -129,7 +124,7 @@ func toolSegments(c segCase, data []byte, t tools) string {
 		sort.Slice(files, func(i, j int) bool { return files[i].nr < files[j].nr })
 		trackID := uint32(1)
 		initPath := filepath.Join(dir, fmt.Sprintf("o_%s1_init.mp4", map[bool]string{true: "v", false: "a"}[tr.video]))
-		if c.mode == "mux" {
+		if isMux(c.mode) {
 			trackID = uint32(ti + 1)
 			initPath = filepath.Join(dir, "o_init.mp4")
 		}
@@ -179,7 +174,7 @@ func corrWriters(seed uint64, n int, t tools, id *int) {
 			class = 3
 		}
 		c := genSegCase(r, class)
-		c.mode = []string{"single", "lazy", "mux"}[i%3]
+		c.mode = []string{"single", "lazy", "mux", "muxlazy"}[i%4]
 		data, err := buildProgressive(c.tracks, c.mdatFirst)
 		if err != nil {
 			continue
